@@ -41,7 +41,7 @@ type Case struct {
 	Msgs   []Msg `json:"msgs"`
 }
 
-var kinds = []string{"vote", "vote", "vote", "proposal", "proposal", "part", "part", "newroundstep", "syncstep", "commitstep", "commitstep", "proposalpol", "hasvote", "maj23", "votesetbits", "raw", "nilfields"}
+var kinds = []string{"vote", "vote", "vote", "proposal", "proposal", "part", "part", "newroundstep", "syncstep", "commitstep", "commitstep", "proposalpol", "hasvote", "maj23", "votesetbits", "raw", "nilfields", "repeat", "repeat", "conflictmaj", "conflictmaj"}
 
 func genCase(t *rapid.T) Case {
 	c := Case{N: rapid.IntRange(1, 7).Draw(t, "n"), Warm: rapid.IntRange(0, 90).Draw(t, "warm")}
@@ -428,6 +428,7 @@ func runCase(c Case, x *h.Ctx) {
 		return
 	}
 	delivered, recovered, queued := 0, 0, 0
+	var sent []built
 	for _, m := range c.Msgs {
 		for i := 0; i < m.Pre; i++ {
 			d.FairStep()
@@ -435,9 +436,84 @@ func runCase(c Case, x *h.Ctx) {
 		if !v.Alive {
 			break
 		}
-		b := build(m, net, v, c.Byz, known, parts)
-		if len(b.bz) == 0 && m.Kind != "raw" {
+		var b built
+		if m.Kind == "conflictmaj" {
+			// scripted attack shape: a Byzantine validator first votes for some other id, the honest
+			// votes then form a majority for a block, the same validator now also votes for that block
+			// (a conflicting vote for the majority block) and re-sends that vote
+			if len(c.Byz) == 0 {
+				continue
+			}
+			signer := c.Byz[m.F[0]%len(c.Byz)]
+			typ := types.VoteTypePrevote
+			if m.F[1]%2 == 1 {
+				typ = types.VoteTypePrecommit
+			}
+			rs := v.RS()
+			hgt, rnd := rs.Height, rs.Round
+			other := types.BlockID{Hash: []byte("some-other-block-id-0"), PartsHeader: types.PartSetHeader{Total: 1, Hash: []byte("some-other-parts-hash")}}
+			first := enc(&pbft.VoteMessage{Vote: sim.SignVote(signer, rs.Validators, hgt, rnd, typ, other)})
+			guard(func() { v.ConR.Receive(pbft.VoteChannel, peer, first) })
+			drain := func() bool {
+				for {
+					var stepped bool
+					site, pv := guard(func() { stepped = net.StepQueued(v) })
+					if pv != nil {
+						x.Fail("consensus-goroutine-panics:"+site, "conflicting-vote script (validator %d, type %d, h%d r%d): the receive routine panicked: %v", signer, typ, hgt, rnd, pv)
+						return false
+					}
+					if !stepped {
+						return true
+					}
+					queued++
+				}
+			}
+			if !drain() {
+				return
+			}
+			for i := 0; i < 60 && v.Alive; i++ {
+				rs = v.RS()
+				if rs.Height != hgt {
+					break
+				}
+				vs := rs.Votes.Prevotes(rnd)
+				if typ == types.VoteTypePrecommit {
+					vs = rs.Votes.Precommits(rnd)
+				}
+				if vs != nil {
+					if maj, ok := vs.TwoThirdsMajority(); ok && len(maj.Hash) > 0 {
+						second := enc(&pbft.VoteMessage{Vote: sim.SignVote(signer, rs.Validators, hgt, rnd, typ, maj)})
+						for rep := 0; rep < 3; rep++ {
+							guard(func() { v.ConR.Receive(pbft.VoteChannel, peer, second) })
+							if !drain() {
+								return
+							}
+						}
+						x.Label("conflicting-vote-for-majority-block-resent")
+						break
+					}
+				}
+				if !d.FairStep() {
+					break
+				}
+			}
+			delivered++
 			continue
+		}
+		if m.Kind == "repeat" {
+			// a message sent earlier, byte for byte (re-delivery / retransmission by the attacker)
+			if len(sent) == 0 {
+				continue
+			}
+			b = sent[m.F[0]%len(sent)]
+			b.desc = "repeat of [" + b.desc + "]"
+			b.invalid, b.stateCh = false, false // a repeated vote may legitimately be counted if the first copy was not
+		} else {
+			b = build(m, net, v, c.Byz, known, parts)
+			if len(b.bz) == 0 && m.Kind != "raw" {
+				continue
+			}
+			sent = append(sent, b)
 		}
 		before := sim.Digest(v.RS())
 		x.Labelf("msg:%s", m.Kind)
